@@ -15,6 +15,7 @@ EXTRA_DESC = {
     "Kanal/Props/C06Code.lean": "C06Code (the eventual-completion theorems transferred to infinite segment-atomic executions of the code model and of the closed machine, under weak fairness stated on the code state)",
     "Kanal/RoleOK.lean": "RoleOK (a popped waiter is served according to its role: a sender's slot is only read, a receiver's only written; refines Own)",
     "Kanal/Refine/Movers.lean": "Refine.Movers (the post-unlock half of a hand-off — deliverTo / claimFrom — commutes with every segment another call can run in the gap: splitting a hand-off segment changes neither results nor state)",
+    "Kanal/Shape.lean": "Shape (every critical section of every translated entry point changes the buffer only by popping its head and appending at its tail, and lengthens it only while there is room; hence queue.length <= capacity along every interleaving)",
     "Kanal/TieDiscipline.lean": "TieDiscipline (Own and NoDangle restated on the translated definitions)",
     "Kanal/TiePtr.lean": "TiePtr (pointer.rs translated: its operation lists compute the byte model's functions for every size, memory and word; a by-value argument is consumed exactly once)",
     "Kanal/Props/C07Pin.lean": "C07Pin (neither future is Unpin, whatever T; structural Unpin derivation over the extracted fields, cross-checked by 14 rustc probes)",
